@@ -341,6 +341,9 @@ func (s *session) continueUntilWait(sprint *sprint, currentRun flows.Run, node f
 			currentRun = runs.NewRun(s, s.pushedFlow.flow, currentRun)
 			s.addRun(currentRun)
 
+			// the new run hasn't visited any node yet so there's no current step
+			step = nil
+
 			// our destination is the first node in that flow... if such a node exists
 			if len(flow.Nodes()) > 0 {
 				destination = flow.Nodes()[0].UUID()
@@ -381,6 +384,9 @@ func (s *session) continueUntilWait(sprint *sprint, currentRun flows.Run, node f
 				childRun := currentRun
 				currentRun = parentRun
 
+				// our current step is now the one the parent run is at (if it still has a location)
+				step, _, _ = currentRun.PathLocation()
+
 				// as long as we didn't fail, we can try to resume it
 				if childRun.Status() != flows.RunStatusFailed {
 					// if flow for this run is a missing asset, we have a problem
@@ -393,7 +399,6 @@ func (s *session) continueUntilWait(sprint *sprint, currentRun flows.Run, node f
 					}
 				} else {
 					// if we did fail then that needs to bubble back up through the run hierarchy
-					step, _, _ := currentRun.PathLocation()
 					failRun(sprint, currentRun, step, fmt.Errorf("child run for flow '%s' ended in error, ending execution", childRun.FlowReference().UUID))
 				}
 
